@@ -37,6 +37,41 @@ import (
 
 var repMu sync.Mutex // the report is written from several probe goroutines
 
+// types on which a point operation never returned: every later phase skips them (each would only
+// wait for its watchdogs while the abandoned goroutines keep spinning / holding locks)
+var (
+	deadMu    sync.Mutex
+	deadTypes = map[string]bool{}
+)
+
+func markDead(typ string) {
+	deadMu.Lock()
+	deadTypes[typ] = true
+	deadMu.Unlock()
+}
+func isDead(typ string) bool {
+	deadMu.Lock()
+	defer deadMu.Unlock()
+	return deadTypes[typ]
+}
+func deadList() string {
+	deadMu.Lock()
+	defer deadMu.Unlock()
+	var xs []string
+	for t := range deadTypes {
+		xs = append(xs, t)
+	}
+	sort.Strings(xs)
+	return strings.Join(xs, ",")
+}
+func initDeadFromEnv() {
+	for _, t := range strings.Split(os.Getenv("VERIF_SKIP_TYPES"), ",") {
+		if t != "" {
+			deadTypes[t] = true
+		}
+	}
+}
+
 // ---------------------------------------------------------------- deadline
 
 func startDeadline(env *vh.Env, rep *vh.Report) {
@@ -240,6 +275,9 @@ func oracleLockstep(env *vh.Env, rep *vh.Report, facts lockFacts) {
 }
 
 func oracleLockstepType(env *vh.Env, rep *vh.Report, facts lockFacts, c ctor) {
+	if isDead(c.name) {
+		return
+	}
 	probe := c.mk()
 	ins := insertName(probe)
 	if ins == "" {
@@ -372,6 +410,9 @@ func blockingQueues(env *vh.Env, rep *vh.Report) {
 		if dbl {
 			name = "RequestDoubleQueue"
 		}
+		if isDead(name) {
+			continue
+		}
 		for _, n := range []int{1, 2, 3, 5} {
 			for r := 0; r < reps*4; r++ {
 				var get func() interface{}
@@ -453,7 +494,7 @@ func growthAndRemovers(env *vh.Env, rep *vh.Report) {
 		wg.Add(1)
 		go func(c ctor) {
 			defer wg.Done()
-			for r := 0; r < rounds; r++ {
+			for r := 0; r < rounds && !isDead(c.name); r++ {
 				if !presentKeyRound(rep, c) || !removersRound(rep, c) {
 					return
 				}
@@ -546,6 +587,7 @@ func presentKeyRound(rep *vh.Report, c ctor) bool {
 	rep.Case("present-key "+c.name, true)
 	rep.Count("growth:present-key-rounds")
 	if hung {
+		markDead(c.name)
 		rep.Fail("property", c.name+":stress-deadlock", "two writers inserting 400 keys each and two readers did not finish within 10 s", map[string]interface{}{"type": c.name})
 		return false
 	}
@@ -610,6 +652,7 @@ func removersRound(rep *vh.Report, c ctor) bool {
 	rep.Case("removers "+c.name, true)
 	rep.Count("growth:remover-rounds")
 	if hung {
+		markDead(c.name)
 		rep.Fail("property", c.name+":stress-deadlock", "four concurrent removers on 60 elements did not finish within 10 s", map[string]interface{}{"type": c.name})
 		return false
 	}
